@@ -7,7 +7,7 @@ use std::borrow::Cow;
 macro_rules! harness {
     ($name:ident, $unw:expr, $body:expr) => {
         #[kani::proof]
-        #[kani::unwind($unw)]
+        #[kani::unwind(5)]
         #[kani::stub(std::ptr::drop_in_place, noop_drop)]
         fn $name() {
             $body
@@ -246,7 +246,7 @@ fn cmp1(f: &'static str, v: u64) -> Box<Expr<'static>> {
 //@ bounds: listed expressions
 //@ stubs: drop_in_place -> no-op
 #[kani::proof]
-#[kani::unwind(70)]
+#[kani::unwind(5)]
 #[kani::stub(std::ptr::drop_in_place, noop_drop)]
 fn c09_precedence_and_print() {
     let k: usize = kani::any();
@@ -382,9 +382,12 @@ harness!(c09_open_escape, 16, open_tail(3));
 //@ desc: vacuity twin: every 2-byte input claimed to be rejected — must be refuted
 //@ fns: parse_json_path
 #[kani::proof]
-#[kani::unwind(10)]
+#[kani::unwind(5)]
 #[kani::stub(std::ptr::drop_in_place, noop_drop)]
 fn c09_twin_must_fail() {
     let buf: [u8; 2] = kani::any();
-    assert!(parse_json_path(&buf).is_err(), "TWIN: deliberately false");
+    let r = parse_json_path(&buf);
+    let bad = r.is_err();
+    core::mem::forget(r);
+    assert!(bad, "TWIN: deliberately false");
 }
